@@ -35,6 +35,8 @@ CHECKS = {
          TB + "One-ulp classes only with power-of-two steps; steps 0.1 / 0.3 only with generic-position samples; interpolant other than linear is not modelled.", TECH, "4/C12"),
  "C13": ("After real workflows on Hydro.tla behaviours (three time steps, grid steps 1 / 0.5 / 2 mm) and on the field datasets, the members and *_interval_zeta rows are recorded together with the CLASSIFIED intervals of the right kind and their own samples; TLC (TraceProvenance.tla, re-using Regrid.tla) re-derives every crossing value from the owner's samples (rises: the segment from zero depth at the initial level to the storm's total depth at the final level), checks ownership, levels within the grid, and grid = floor(min/step)..ceil(max/step)-1 without holes.",
          TB + "Exact (1e-5 step) on lattice datasets; on field data single-crossing rows of intervals <= 60 samples at 0.03-step resolution, rise values only loosely (ownership and grid membership exactly).", "TLA+ trace validation (TLC re-derives each stored row from the specification's Regrid operators)", "4/C13"),
+ "C20": ("TLC explores Spowtd.tla exhaustively (every history of the five steps with two argument values each, read-only commands, doomed attempts, Fail and Kill at every abstract write index) checking Atomic (action property), NoMixture, Rerunnable, Confluent and termination of every started step, and emits every edge; the harness replays EVERY edge against the real CLI on a small Hydro.tla dataset: one canonical logical dump per abstract state, reproduced byte for byte by every history reaching it; faults (OperationalError) and kills (SIGKILL in a subprocess, hot journal) injected at the first / middle / last write and after the last write (thorough: every statement and every executemany row on a subset); after each the dump must equal the previous content and the step must re-run to the complete result; statement streams judged by TraceTxn.tla.",
+         TB + "`load` is outside the property (its executescript commits the schema first). Write points are those visible to Python's sqlite3 layer (statements and executemany rows), not pager-level I/O.", "TLA+ model checking (TLC) of the command/transaction state machine + replay of every graph edge with fault and crash injection + trace validation of SQL statement streams", "4/C20"),
 }
 
 NOT_APPLICABLE = {
